@@ -11,7 +11,7 @@
    to [canon_ref] only by the correspondence check (equal canonical graphs on every explored
    input) and explored directly by the oracles of harness/cmd/c01. *)
 From Coq Require Import List Arith.
-From Mamba Require Import Canon.Perm Canon.Iso Canon.Model Canon.Refine Canon.Tree Canon.Fuel.
+From Mamba Require Import Canon.Perm Canon.Iso Canon.Model Canon.Refine Canon.Sorted Canon.Tree Canon.Fuel.
 Import ListNotations.
 
 (* Relabelling by a permutation gives an isomorphic graph, in the usual sense: same order and an
@@ -47,6 +47,14 @@ Theorem C01_refine_permutes_order : forall g P Q, refine g P = Some Q ->
   Permutation.Permutation (verts Q) (verts P).
 Proof. exact refine_verts. Qed.
 Print Assumptions C01_refine_permutes_order.
+
+(* The model keeps every cell ascending, as the Go code does (so a position inside a cell is a
+   rank, the stable sort by count is a filter, and the shift of splitBin is a filter). *)
+Theorem C01_refine_keeps_cells_ascending : forall g P Q, refine g P = Some Q ->
+  Forall (fun c => Sorted.StronglySorted lt (snd c)) P ->
+  Forall (fun c => Sorted.StronglySorted lt (snd c)) Q.
+Proof. exact refine_asc. Qed.
+Print Assumptions C01_refine_keeps_cells_ascending.
 
 (* The refinement is equivariant: if f maps the vertices V of g to vertices of g' preserving
    adjacency, and P' is cell by cell (same binsToCheck flags) the image of P up to the order
